@@ -191,7 +191,7 @@ def run(ctx):
     fns = [f for f in fns if f in p.bodies]
     fns += [k for k in p.bodies if k.startswith("L::machine::Machine::load::{closure")]
     sites = panics.enumerate_sites(p, sorted(set(fns)))
-    chk.floor("panic-capable sites reachable from compile/load/display", len(sites), 33)
+    chk.floor("panic-capable sites reachable from compile/load/display", len(sites), 20)
     hit_fns = {k[0] for k in I.block_hits}
     # cross-stage normalisation for the label look-ups
     norm_ok, norm_detail = label_normalisation(p)
